@@ -563,6 +563,29 @@ func runMerge(c *Ctx, prop string) {
 	nret := 0
 	for _, b := range ov.Blocks {
 		if r, ok := b.Instrs[len(b.Instrs)-1].(*ssa.Return); ok && len(r.Results) == 1 {
+			// `if len(inject) == 0 { return own }`: merging nothing yields the own list, element for element
+			isOwn := func(v ssa.Value) bool {
+				if v == ssa.Value(ov.Params[0]) {
+					return true
+				}
+				// append(fresh empty list, own...)
+				ap, ok := v.(*ssa.Call)
+				return ok && calleeName(&ap.Call) == "builtin.append" && len(ap.Call.Args) == 2 && unwrapChange(ap.Call.Args[1]) == ssa.Value(ov.Params[0]) &&
+					(isFreshEmptySlice(ap.Call.Args[0]) || isNilConst(ap.Call.Args[0]))
+			}
+			if len(ov.Params) == 2 && isOwn(unwrapChange(r.Results[0])) && len(b.Preds) == 1 {
+				if iff, ok := b.Preds[0].Instrs[len(b.Preds[0].Instrs)-1].(*ssa.If); ok {
+					if bo, ok := iff.Cond.(*ssa.BinOp); ok {
+						k, isK := constInt(bo.Y)
+						ln, isLen := bo.X.(*ssa.Call)
+						onTrue := b.Preds[0].Succs[0] == b
+						if isK && k == 0 && isLen && calleeName(&ln.Call) == "builtin.len" && ln.Call.Args[0] == ssa.Value(ov.Params[1]) &&
+							((bo.Op == token.EQL && onTrue) || (bo.Op == token.NEQ && !onTrue) || (bo.Op == token.GTR && !onTrue)) {
+							continue
+						}
+					}
+				}
+			}
 			ret = r
 			nret++
 		}
